@@ -48,6 +48,8 @@ type Gen struct {
 	tracedResTypes map[string][]types.Type
 	tracedPkg      map[string]string
 	traceSpecMemo  map[*SpecFun]int
+	tracedByPkg    map[string][2][]types.Type
+	curPkgPath     string
 	tracedFnType   map[string]types.Type
 	modDirty       bool
 	funcSet        map[*ssa.Function]bool
@@ -308,6 +310,9 @@ func (g *Gen) needSubstrAxiom(e *Enc) {
 }
 
 func (g *Gen) calleeResType(name string, i int) types.Type {
+	if p, ok := g.tracedByPkg[g.curPkgPath+"\x00"+name]; ok && i < len(p[1]) {
+		return p[1][i]
+	}
 	t, ok := g.tracedResTypes[name]
 	if !ok || i >= len(t) {
 		return nil
@@ -319,6 +324,9 @@ func (g *Gen) calleeResType(name string, i int) types.Type {
 func (g *Gen) calleeArgType(name string, j int) types.Type {
 	if j == -1 {
 		return g.tracedFnType[name]
+	}
+	if p, ok := g.tracedByPkg[g.curPkgPath+"\x00"+name]; ok && j >= 0 && j < len(p[0]) {
+		return p[0][j]
 	}
 	t, ok := g.tracedArgTypes[name]
 	if !ok || j >= len(t) {
@@ -512,6 +520,7 @@ func main() {
 				defProps = uniq(sp)
 			}
 		}
+		g.curPkgPath = j.fn.Pkg.Pkg.Path()
 		fg := g.newFuncGen(j.fn, j.ct, defProps)
 		func() {
 			defer func() {
@@ -780,10 +789,6 @@ func (g *Gen) findTraced() {
 		if !g.traced[name] {
 			continue
 		}
-		if _, have := g.tracedArgTypes[name]; have && fn.Pkg.Pkg.Path() != g.tracedPkg[name] && !strings.HasSuffix(fn.Pkg.Pkg.Path(), "/runtime") {
-			continue // prefer the v1 runtime package when two packages share a function name
-		}
-		g.tracedPkg[name] = fn.Pkg.Pkg.Path()
 		var ts []types.Type
 		if r := fn.Signature.Recv(); r != nil {
 			ts = append(ts, r.Type())
@@ -791,11 +796,20 @@ func (g *Gen) findTraced() {
 		for i := 0; i < fn.Signature.Params().Len(); i++ {
 			ts = append(ts, fn.Signature.Params().At(i).Type())
 		}
-		g.tracedArgTypes[name] = ts
 		var rs []types.Type
 		for i := 0; i < fn.Signature.Results().Len(); i++ {
 			rs = append(rs, fn.Signature.Results().At(i).Type())
 		}
+		// per package as well: a function of the package under verification wins over a namesake
+		if g.tracedByPkg == nil {
+			g.tracedByPkg = map[string][2][]types.Type{}
+		}
+		g.tracedByPkg[fn.Pkg.Pkg.Path()+"\x00"+name] = [2][]types.Type{ts, rs}
+		if _, have := g.tracedArgTypes[name]; have && fn.Pkg.Pkg.Path() != g.tracedPkg[name] && !strings.HasSuffix(fn.Pkg.Pkg.Path(), "/runtime") {
+			continue // default: prefer the v1 runtime package when two packages share a function name
+		}
+		g.tracedPkg[name] = fn.Pkg.Pkg.Path()
+		g.tracedArgTypes[name] = ts
 		g.tracedResTypes[name] = rs
 	}
 	g.externTraceTypes()
